@@ -168,6 +168,7 @@ package lexer
 //@   capture tt = call(l.scanner.TokenText, 0)
 //@   capture cm = call(lexerql.ScanComment, 0)
 //@   capture nt = call(l.nextToken, 0)
+//@   loop 0 entry_ensures[only-hash-comments-are-skipped] l.scanner.Mode == scanner.GoTokens &^ (scanner.ScanComments | scanner.SkipComments)
 //@   loop 0 body_ensures[comments-produce-no-token] sc_called && (sc_r0 == '#' ==> cm_called && !nt_called && len(l.tokens) == head(len(l.tokens)))
 //@   loop 0 body_ensures[one-token-per-lexeme-in-order] sc_r0 != '#' ==> nt_called && nt_r1 && nt_a0 == sc_r0 && tt_called && nt_a1 == tt_r0 &&
 //@       len(l.tokens) == head(len(l.tokens)) + 1 && l.tokens[len(l.tokens)-1].Type == nt_r0.Type && l.tokens[len(l.tokens)-1].Text == nt_r0.Text
